@@ -755,7 +755,18 @@ def g_search(verifier, ob, K=4, L=3, timeout_s=30):
         if vc.result is not None and vc.result[0] == 'unsat':
             continue
         q, labels = g_query(verifier, vc, K, L)
-        r = solve.check(q, timeout_s, ('z3new', 'cvc5'), tag='G')
+        r = None
+        if '(declare-fun str_lower (String) String)' in q:
+            # str.lower() is uninterpreted in proofs; a counter-model that depends on an arbitrary
+            # interpretation of it does not replay.  Search first with cvc5's ASCII lower-casing
+            # (equal to Python's on ASCII text); the native replay stays the judge.
+            q2 = q.replace('(declare-fun str_lower (String) String)',
+                           '(define-fun str_lower ((s String)) String (str.to_lower s))')
+            r = solve.check(q2, timeout_s, ('cvc5',), tag='G')
+            if r.status != 'sat':
+                r = None
+        if r is None:
+            r = solve.check(q, timeout_s, ('z3new', 'cvc5'), tag='G')
         if r.status == 'sat':
             model = decode_g_model(r.output, labels, verifier.ex)
             return {'status': 'sat', 'model': model, 'solver': r.solver, 'ms': r.ms, 'note': vc.note,
